@@ -361,6 +361,8 @@ def gen_sched(g):
         burst(p, 24)
     nsteps = rng.randint(3, 14)
     created = 0
+    faults = []
+    restore = []
     for _ in range(nsteps):
         open_now = sorted(p for p in docs if docs[p] is not None)
         r = rng.random()
@@ -415,6 +417,21 @@ def gen_sched(g):
             srcs.append(np_)
             ops.append(gen.env_write(np_, text))
             open_doc(np_)
+            if rng.random() < 0.4:
+                # the first read of the new document fails or races with its (re)creation
+                kind = rng.choice(["eio", "eacces", "eio-read", "vanish", "torn"])
+                k_op = len(ops) - 1
+                if kind == "vanish":
+                    faults.append({"op": k_op, "seam": "open", "nth": 0, "kind": "race",
+                                   "env": [gen.env_delete(np_), ]})
+                    faults.append({"op": k_op, "seam": "open", "nth": 0, "kind": "enoent"})
+                    restore.append((np_, text))
+                elif kind == "torn":
+                    faults.append({"op": k_op, "seam": "open", "nth": 0, "kind": "torn", "cut": rng.random()})
+                else:
+                    faults.append({"op": k_op, "seam": "open", "nth": 0, "kind": kind})
+                docs[np_] = None  # the server could not read it: no text to compare ranges with
+                ops.append(gen.req(rid(), "textDocument/documentSymbol", {"textDocument": {"uri": gen.uri(np_)}}))
             p = np_
         # burst on the touched document (if still there) and on one other
         if p in disk or docs.get(p) is not None:
@@ -423,7 +440,7 @@ def gen_sched(g):
         if others:
             burst(rng.choice(others), 8)
     ops += [gen.req(rid(), "shutdown"), gen.note("exit")]
-    return {"argv": argv, "tree": tree, "ops": ops, "sync_kind": 2, "strict_edits": True,
+    return {"argv": argv, "tree": tree, "ops": ops, "sync_kind": 2, "strict_edits": False, "faults": faults,
             "pipeline": False, "oracles": ["c09"], "workload": wk,
             "chunks": rng.choice([None, None, [4096], [64]])}
 
